@@ -226,8 +226,9 @@ def run_harness(binary, scenarios, work, seed, nproc=None, test="TestDrive", ext
 TLC_JAR = "/opt/veriftools/tla/tla2tools.jar"
 
 
-def tlc(work, module, cfg_text, workers=1, timeout=1800, heap=None, extra=None, name=None):
-    """runs TLC in the work copy of the specs; returns (rc, output, stats)"""
+def tlc(work, module, cfg_text, workers=1, timeout=1800, heap=None, extra=None, name=None, on_line=None):
+    """runs TLC in the work copy of the specs; returns (rc, output, stats).  on_line(line) -> True consumes a line of
+    TLC's output as it is printed (exports of millions of behaviours are never held in memory as text)"""
     name = name or module
     cfg = os.path.join(work.specdir, name + ".cfg")
     with open(cfg, "w") as f:
@@ -241,8 +242,17 @@ def tlc(work, module, cfg_text, workers=1, timeout=1800, heap=None, extra=None, 
     if heap:
         env["JAVA_TOOL_OPTIONS"] = (env.get("JAVA_TOOL_OPTIONS", "") + " -Xmx%s" % heap).strip()
     t = time.time()
-    p = subprocess.run(cmd, cwd=work.specdir, env=env, capture_output=True, text=True)
-    out = p.stdout + p.stderr
+    if on_line is None:
+        p = subprocess.run(cmd, cwd=work.specdir, env=env, capture_output=True, text=True)
+        out = p.stdout + p.stderr
+    else:
+        p = subprocess.Popen(cmd, cwd=work.specdir, env=env, stdout=subprocess.PIPE, stderr=subprocess.STDOUT, text=True, bufsize=1 << 20)
+        kept = []
+        for ln in p.stdout:
+            if not on_line(ln):
+                kept.append(ln)
+        p.wait()
+        out = "".join(kept)
     shutil.rmtree(meta, ignore_errors=True)
     stats = {"wall_s": round(time.time() - t, 2), "generated": 0, "distinct": 0, "rc": p.returncode}
     m = re.search(r"(\d+) states generated, (\d+) distinct states found", out)
@@ -288,11 +298,26 @@ def model_check(work, module, consts, invariants=(), props=(), workers=None, tim
     if view:
         lines.append("VIEW " + view)
     lines.append("CHECK_DEADLOCK FALSE")
-    rc, out, stats = tlc(work, module, "\n".join(lines) + "\n", workers=workers or NCPU, timeout=timeout, name=name, extra=extra)
+    rows, count = [], [0]
+
+    def on_line(ln):
+        if not (ln.startswith('"{') or ln.startswith('"[')):
+            return False
+        try:
+            row = json.loads(json.loads(ln))
+        except Exception:
+            return False
+        count[0] += 1
+        if keep is None or keep(row):
+            rows.append(row)
+        return True
+
+    rc, out, stats = tlc(work, module, "\n".join(lines) + "\n", workers=workers or NCPU, timeout=timeout, name=name, extra=extra,
+                         on_line=on_line if export else None)
     if rc != 0:
         raise Inconclusive("model check %s failed (rc=%d): the specification violates its own monitors or does not evaluate:\n%s"
                            % (name or module, rc, tail_of(out)))
-    rows, nexp = printed_json(out, keep) if export else ([], 0)
+    nexp = count[0]
     stats["exported"] = nexp
     log("[tlc] %s %s: %d states (%d distinct), %d behaviours exported (%d kept), %.1fs" % (
         name or module, json.dumps(consts), stats["generated"], stats["distinct"], nexp, len(rows), stats["wall_s"]))
